@@ -261,6 +261,31 @@ def audit_props(cluster, props_rel, allowed_axioms=()):
                 axioms=axioms_all, problems=problems, cmd=' '.join(cmd), log=out)
 
 
+def coqchk_props(cluster, props_rel, allowed_axioms=(), timeout=1500):
+    """Thorough tier: re-check the compiled Props file and everything it depends on with the independent checker
+    coqchk and read the axioms it reports.  Returns dict(ok, axioms, cmd, problems)."""
+    cdir = cluster_dir(cluster)
+    mod = cluster_name(cluster) + '.' + props_rel[:-2].replace('/', '.')
+    cmd = ['coqchk', '-silent', '-o'] + coq_flags(cluster) + [mod]
+    rc, out = run(cmd, cwd=cdir, timeout=timeout)
+    problems = []
+    if rc != 0:
+        problems.append(f'coqchk failed on {mod}: {out[-400:]}')
+        return dict(ok=False, axioms=[], cmd=' '.join(cmd), problems=problems)
+    m = re.search(r'\* Axioms:(.*?)\n\s*\n\s*\*', out, re.S)
+    text = m.group(1).strip() if m else ''
+    axioms = [] if text in ('', '<none>') else [a.strip() for a in text.splitlines() if a.strip()]
+    bad = [a for a in axioms if not any(re.fullmatch(p, a) or re.fullmatch(p, a.split('.')[-1]) or
+                                        re.search(p, a) for p in allowed_axioms)]
+    for sect in ('type-in-type', 'unsafe (co)fixpoints', 'positivity is assumed'):
+        mm = re.search(re.escape(sect) + r':(.*?)\n\s*\n', out + '\n\n', re.S)
+        if mm and mm.group(1).strip() not in ('', '<none>'):
+            problems.append(f'coqchk: {sect}: {mm.group(1).strip()[:200]}')
+    if bad:
+        problems.append(f'coqchk reports non-whitelisted axioms for {mod}: {bad[:6]}')
+    return dict(ok=not problems, axioms=axioms, cmd=' '.join(cmd), problems=problems)
+
+
 def coq_eval(cluster, body, work, name='eval', timeout=600):
     """Compile a scratch file against the cluster; returns (rc, stdout)."""
     os.makedirs(work, exist_ok=True)
@@ -394,6 +419,7 @@ def write_evidence(ctx, check, audit, violations, extra_trusted=()):
         'checker_cmd': (audit.get('cmd') if audit else '') or 'make -f Makefile.coq (coq 8.16.1)',
         'theorems': audit.get('theorems', []) if audit else [],
         'axioms_reported_by_Print_Assumptions': audit.get('axioms', []) if audit else [],
+        'coqchk': (audit.get('coqchk') if audit else None) or 'thorough tier only',
         'trusted_base': list(check.trusted_base) + list(extra_trusted),
         'evaluations': ctx.evaluations,
         'distinct_nontrivial': len(ctx.nontrivial),
@@ -486,6 +512,12 @@ def main_run(check, tier, seed, replay_file=None):
                             audit['cmd'] += ' ; ' + a['cmd']
                     for b in bad:
                         audit['problems'].append('hygiene: ' + b)
+                    if not ctx.quick() and not audit['problems']:
+                        with ctx.timed('coqchk'):
+                            chk = [coqchk_props(check.cluster, pr, check.allowed_axioms) for pr in props]
+                        audit['coqchk'] = [{'cmd': c['cmd'], 'axioms': c['axioms']} for c in chk]
+                        for c in chk:
+                            audit['problems'] += c['problems']
                     if audit['problems'] or audit['discharged'] != audit['obligations'] or audit['obligations'] == 0:
                         if bad:
                             audit['discharged'] = 0
